@@ -199,9 +199,10 @@ func (p *Parser) GenerateBaseCode() (code string, err error) {
 
 		// A trailing comment on the line of the closing brace goes away with the interface.
 		// Left in place it would end up in the doc comment of the next declaration.
-		closeLine := p.fset.Position(maxPos).Line
+		// Physical lines are compared: //line directives can give the same number to several lines.
+		closeLine := p.fset.PositionFor(maxPos, false).Line
 		for _, cg := range p.file.Comments {
-			if 0 < len(cg.List) && maxPos < cg.Pos() && p.fset.Position(cg.Pos()).Line == closeLine {
+			if 0 < len(cg.List) && maxPos < cg.Pos() && p.fset.PositionFor(cg.Pos(), false).Line == closeLine {
 				cg.List = nil
 			}
 		}
